@@ -14,23 +14,33 @@ GENERATORS = [rules.generate]
 LEAN_MODULES = ["FimVerif.Proofs.C07", "FimVerif.Drivers.TopoRun"]
 P = "FimVerif.C07."
 THEOREMS = [P + t for t in (
-    "vocab_covers_enums", "rules_pinned", "inv_empty", "views_exact_nodes", "views_exact_facilities", "views_exact_links",
+    "vocab_covers_enums", "rules_pinned", "wf_empty", "views_exact_nodes", "views_exact_facilities", "views_exact_links",
     "views_exact_services", "views_partition_nodes", "id_guard_any_class", "wf_addGNode", "wf_setEdge", "wf_dropNode",
-    "wf_mapNodes", "pw_addEdge", "pw_deleteNode", "pw_updateProps", "pw_mapNodes")]
+    "wf_mapNodes", "pw_addEdge", "pw_deleteNode", "pw_updateProps", "pw_mapNodes",
+    "inv_empty", "invS_iff", "links_only_interfaces", "inv_op", "invD_op", "inv_history_partial", "invD_history_partial",
+    "inv_history_from_empty", "invD_history_from_empty", "inv_setProps", "inv_unsetProp", "inv_addNode",
+    "rename_names_counterexample", "nsAddInterface_names_counterexample", "nsAddInterface_sp_counterexample",
+    "addLink_sp_counterexample", "connect_names_counterexample")]
 TRUSTED_BASE = [
     "Model/Topo.lean (hand-mirrored topology API, see C09) - checked differentially call by call, including the four name views",
+    "Topo.Inv (Proofs/Lemmas/TopoInv.lean) is the reading of the statement's conjuncts on the model state; edges are read container-first "
+    "(the order in which every building call passes the two ends) - tied to the published rules by evaluating every conjunct on every "
+    "state of the correspondence run in the Lean driver and comparing the verdicts with the rule oracle's on the implementation's graph",
     "gen/rules.py: regexes that read the vocabularies out of graph_validation_rules.json and pin the list of rule kinds; enum members by import",
     "the Python transliteration of the 11 non-cardinality rules + containment/name-scope rules in props/c07.py (the oracle)",
+    "post-state lemmas of the C09 development (Proofs/Lemmas/TopoAtomic*.lean: ifaceNew_cases, linkNew_cases, connect_spec) - proved, "
+    "imported read-only",
 ]
 ASSUMPTIONS = [
-    "NetworkX backend, single thread, ASCII names; uuid4 freshness",
+    "NetworkX backend, single thread, ASCII names; uuid4 freshness (guard FreshTwo in CoveredS/CoveredD)",
     "the two cardinality rules (L2PTP/L2Path connect two, PortMirror connects one) constrain finished slices (C10) and are not demanded after every call",
-    "PARTIAL for every building call: the Lean invariant Topo.Wf (node ids distinct, no dangling edge) is proved for the empty model and "
-    "for each graph primitive the calls mutate through (add_node, add_link, delete_node, update_node_properties, property/name rewrite), "
-    "not yet lifted to whole calls / histories (inv_op, inv_history unfinished for: add_node, add_component, add_storage, "
-    "add_network_service (topology and node), add_link, add_interface, remove_interface, connect_interface, disconnect_interface, "
-    "add_facility, add_switch, remove_node/facility/switch/link/network_service/component, set/unset property, rename); the other "
-    "conjuncts (argument vocabularies, ownership, peers, name scopes) are checked by the oracle on generated histories only",
+    "PARTIAL: InvS (= Inv without the six name scopes) is proved for every history of add_node, add_component, add_storage, NetworkService.add_interface, add_link, "
+    "connect_interface, set/unset property, rename under the decidable guards of CoveredS (argument types from the API enums, handles "
+    "refer to elements of their class, fresh uuids, derived link name valid when the port name is, no ServicePort handed to "
+    "add_link/connect, add_interface not used to create a ServicePort); InvD ('at most one' owner/parent/peer instead of 'exactly one') "
+    "additionally for every removing call, disconnect_interface, remove_interface, in any state and for any outcome",
+    "NOT covered by inv_op (oracle + correspondence only): add_network_service (topology and node), "
+    "add_facility, add_switch; 'exactly one' after removals (subject of C08); the name scopes, except for add_node and set/unset property (inv_addNode, inv_setProps, inv_unsetProp keep the full Inv)",
     "building calls not in the model: peer/unpeer, add_child_interface/remove_child_interface, add_port_mirror_service, prune",
 ]
 RULE = ("call histories over both flavours (caller-supplied and generated ids), mostly valid calls with 15% rejected ones; after every call "
@@ -38,6 +48,28 @@ RULE = ("call histories over both flavours (caller-supplied and generated ids), 
         "interface; distinct by op-kind sequence hash")
 
 CORPUS = os.path.join(core.CORPUS_DIR, "C07")
+CONTAINMENT = {tuple(sorted([a, b])) + (rel,) for a, rel, b in (
+    ("NetworkNode", "has", "Component"), ("NetworkNode", "has", "NetworkService"), ("CompositeNode", "has", "Component"),
+    ("CompositeNode", "has", "NetworkService"), ("Component", "has", "NetworkService"), ("NetworkService", "connects", "ConnectionPoint"),
+    ("ConnectionPoint", "connects", "ConnectionPoint"), ("Link", "connects", "ConnectionPoint"))}
+# conjunct of Topo.Inv (Proofs/Lemmas/TopoInv.lean) that a rule of the oracle belongs to
+CONJ = {"has-props": "vocab", "class-vocab": "vocab", "type-vocab": "vocab", "ids-distinct": "ids", "component-one-owner": "compOwned",
+        "interface-one-parent": "ifaceOwned", "serviceport-one-peer": "spPeer", "link-only-interfaces": "schema", "containment": "schema"}
+NAME_CONJ = {"NetworkNode": "nodeNames", "Link": "linkNames", "Component-in-NetworkNode": "compNames",
+             "NetworkService-in-NetworkNode": "svcNames", "NetworkService-in-Component": "svcNames",
+             "NetworkService-top-level": "topSvcNames", "ConnectionPoint-in-NetworkService": "cpNames"}
+CONJUNCTS = ["ids", "closed", "vocab", "schema", "compOwned", "ifaceOwned", "spPeer", "nodeNames", "linkNames", "compNames", "svcNames",
+             "topSvcNames", "cpNames"]
+
+
+def py_verdicts(snap):
+    """the oracle's verdict per conjunct of Topo.Inv on a snapshot of the implementation's graph"""
+    v = {c: True for c in CONJUNCTS}
+    for rule, cls, _ in check_rules(snap):
+        v[NAME_CONJ[cls] if rule == "names-unique" else CONJ[rule]] = False
+    v["inv"] = all(v.values())
+    return v
+
 _VOCAB = None
 
 
@@ -86,10 +118,11 @@ def check_rules(snap):
             if len(owners) != 1:
                 out.append(("component-one-owner", "Component", [n[:4], owners]))
         if n[0] == "ConnectionPoint":
+            # "each interface [belongs] to exactly one service or parent interface": a sub-interface hangs off its parent
+            # interface (the parent's own children are not its parents), anything else off a service
+            parents = [x for x, rel in nb if rel == "connects" and x[0] == "NetworkService"]
             if n[3] == "SubInterface":
-                parents = [x for x, rel in nb if rel == "connects" and x[0] == "ConnectionPoint"]
-            else:
-                parents = [x for x, rel in nb if rel == "connects" and x[0] == "NetworkService"]
+                parents += [x for x, rel in nb if rel == "connects" and x[0] == "ConnectionPoint"]
             if len(parents) != 1:
                 out.append(("interface-one-parent", "ConnectionPoint:" + str(n[3]), [n[:4], parents]))
             if n[3] == "ServicePort":
@@ -103,6 +136,11 @@ def check_rules(snap):
             for x, rel in nb:
                 if x[0] != "ConnectionPoint":
                     out.append(("link-only-interfaces", x[0], [n[:4], list(x)]))
+    # containment structure (what may hang off what)
+    for a, b, rel in snap["edges"]:
+        pair = tuple(sorted([a[0], b[0]])) + (rel,)
+        if pair not in CONTAINMENT and "Link" not in pair[:2]:
+            out.append(("containment", "%s-%s-%s" % (a[0], rel, b[0]), [list(a), list(b), rel]))
     # names unique in scope
 
     def dup(names):
@@ -206,15 +244,33 @@ def non_trivial(steps):
     return False
 
 
+def scripted(ops):
+    """ops list -> callable for run_history; the pseudo-op {"op": "_harvest", "h": key} picks up the interface handles of
+    a service / node handle (fresh lookups through the API, as a caller would) and is not a building call"""
+    it = iter(list(ops))
+
+    def nxt(sess):
+        for op in it:
+            if op["op"] == "_harvest":
+                sess.harvest(op["h"])
+                continue
+            return op
+        return None
+    return nxt
+
+
 def run_and_check(fl, ops_or_gen, res, label, nmax=None, views_every=3):
     ops_done = []
     cnt = [0]
+    script = None if callable(ops_or_gen) else list(ops_or_gen)
+    if script is not None:
+        ops_or_gen = scripted(script)
 
     def on_step(sess, st):
         ops_done.append(st["op"])
         res.evaluations += 1
         res.count("op:" + st["op"]["op"])
-        case = {"flavour": fl, "ops": list(ops_done), "label": label}
+        case = {"flavour": fl, "ops": list(ops_done) if script is None else script[:script.index(st["op"]) + 1], "label": label}
         before = {(r, c) for r, c, _ in check_rules(st["before"])}
         for rule, cls, detail in check_rules(st["after"]):
             if (rule, cls) in before:
@@ -243,6 +299,29 @@ def deterministic_cases():
     out.append(("rename-to-existing", "exp", base + [{"op": "rename", "h": "h1", "name": "n1"}]))
     out.append(("facility-dup-iface-names", "exp", base + [
         {"op": "add_facility", "name": "fac", "site": "RENC", "ifs": [["fi", ["lab", {"vlan": "100"}], ["cap", {"bw": 10}]], ["fi", ["lab", {"vlan": "101"}], ["cap", {"bw": 10}]]]}]))
+    out.append(("add_link-on-service-port", "exp", base + [
+        {"op": "add_service", "name": "s1", "nstype": "L2Bridge", "ifs": ["h3"], "kw": []},        # h10
+        {"op": "_harvest", "h": "h10"},                                                           # h11 = the ServicePort
+        {"op": "add_link", "name": "lx", "ltype": "L2Path", "ifs": ["h11", "h6"], "kw": []}]))
+    out.append(("add_interface-service-port", "exp", base + [
+        {"op": "add_service", "name": "s1", "nstype": "L2Bridge", "ifs": [], "kw": []},
+        {"op": "ns_add_interface", "svc": "h10", "name": "spx", "itype": "ServicePort", "kw": []}]))
+    out.append(("add_interface-sub-interface-type", "exp", base + [
+        {"op": "add_service", "name": "s1", "nstype": "L2Bridge", "ifs": [], "kw": []},
+        {"op": "ns_add_interface", "svc": "h10", "name": "subx", "itype": "SubInterface", "kw": []}]))
+    out.append(("connect-same-derived-name", "exp", base + [
+        {"op": "node_add_service", "parent": "h0", "name": "nsa", "nstype": "OVS", "kw": []},     # h10
+        {"op": "node_add_service", "parent": "h0", "name": "nsb", "nstype": "OVS", "kw": []},     # h11
+        {"op": "ns_add_interface", "svc": "h10", "name": "ii", "itype": "TrunkPort", "kw": []},   # h12
+        {"op": "ns_add_interface", "svc": "h11", "name": "ii", "itype": "TrunkPort", "kw": []},   # h13
+        {"op": "add_service", "name": "s1", "nstype": "L2Bridge", "ifs": ["h12"], "kw": []},       # h14
+        {"op": "connect", "svc": "h14", "if": "h13"}]))
+    out.append(("add_service-same-derived-name", "exp", base + [
+        {"op": "node_add_service", "parent": "h0", "name": "nsa", "nstype": "OVS", "kw": []},     # h10
+        {"op": "node_add_service", "parent": "h0", "name": "nsb", "nstype": "OVS", "kw": []},     # h11
+        {"op": "ns_add_interface", "svc": "h10", "name": "ii", "itype": "TrunkPort", "kw": []},   # h12
+        {"op": "ns_add_interface", "svc": "h11", "name": "ii", "itype": "TrunkPort", "kw": []},   # h13
+        {"op": "add_service", "name": "s1", "nstype": "L2Bridge", "ifs": ["h12", "h13"], "kw": []}]))
     out.append(("multisite-type", "exp", base + [{"op": "add_service", "name": "ms", "nstype": "L2Multisite", "ifs": ["h3", "h6"], "kw": []}]))
     out.append(("all-ops", "sub", c09.base_ops("sub") + [
         {"op": "add_switch", "name": "sw1", "nid": "swid", "site": "RENC", "nports": 2},
@@ -265,35 +344,53 @@ def corpus_cases():
 def correspondence(ctx, res):
     hs = []
     for name, fl, ops in corpus_cases() + deterministic_cases():
-        hs.append(c09.run_history(fl, ops))
+        hs.append(c09.run_history(fl, scripted(ops)))
     n = ctx.scale(50, 500)
     for i in range(n):
         fl = "exp" if i % 4 else "sub"
         hs.append(c09.random_history(ctx, "c07corr/%d" % i, fl, ctx.scale(25, 40), 0.15))
     c09.compare_with_model(hs, res)
-    # the views, as pure functions of the state: compare the model's listing with the implementation's
-    lines, want = [], []
-    for h in hs[: ctx.scale(40, 200)]:
-        if not h:
-            continue
-        lines.append(json.dumps({"op": "reset"}))
-        want.append(None)
-        for st in h:
-            lines.append(T.lean_line(st["line"]))
+    # the views as pure functions of the state, and the verdict of every conjunct of Topo.Inv on every state of the run:
+    # the model's (Lean predicate on the model state) against the oracle's (published rules on the implementation's graph)
+    hsel = hs[: ctx.scale(45, 250)]
+    for lo in range(0, len(hsel), 60):
+        lines, want = [], []
+        for h in hsel[lo:lo + 60]:
+            if not h:
+                continue
+            lines.append(json.dumps({"op": "reset"}))
             want.append(None)
-        lines.append(json.dumps({"op": "views"}))
-        ev = expected_views(h[-1]["after"])
-        want.append({k: ev[k] for k in ("nodes", "facilities", "links", "services")})
-    rep = LeanDriver("C07").run(lines)
-    for w, r in zip(want, rep):
-        if w is None:
-            continue
-        res.evaluations += 1
-        res.count("op:views")
-        j = json.loads(r)
-        got = {k: sorted(v) for k, v in j[1].items()}
-        if got != w:
-            res.disagreements.append({"case": "views", "impl": w, "model": got})
+            for i, st in enumerate(h):
+                lines.append(T.lean_line(st["line"]))
+                want.append(None)
+                lines.append(json.dumps({"op": "inv"}))
+                want.append(("inv", py_verdicts(st["after"]), {"ops": [x["op"] for x in h[:i + 1]], "flavour": st["line"]["fl"]}))
+            lines.append(json.dumps({"op": "views"}))
+            ev = expected_views(h[-1]["after"])
+            want.append(("views", {k: ev[k] for k in ("nodes", "facilities", "links", "services")}, None))
+        rep = LeanDriver("C07").run(lines)
+        for w, r in zip(want, rep):
+            if w is None:
+                continue
+            res.evaluations += 1
+            j = json.loads(r)
+            if w[0] == "views":
+                res.count("op:views")
+                got = {k: sorted(v) for k, v in j[1].items()}
+                if got != w[1]:
+                    res.disagreements.append({"case": "views", "impl": w[1], "model": got})
+            else:
+                res.count("op:inv")
+                got = {k: j[1][k] for k in w[1]}
+                if j[1]["closed"] is not True:
+                    got["closed"] = False
+                for k in w[1]:
+                    if not w[1][k]:
+                        res.count("inv-false:" + k)
+                if got != w[1]:
+                    res.disagreements.append({"case": dict(w[2], what="verdict of Topo.Inv differs from the rule oracle's",
+                                                           differ=sorted(k for k in w[1] if got[k] != w[1][k])),
+                                              "impl": w[1], "model": got})
     res.nontrivial = {x for x in res.nontrivial}
     for h in hs:
         if non_trivial(h):
